@@ -151,7 +151,10 @@ def inline(prog, body, max_depth=4, max_blocks=1500, opaque=(), only=None, log=N
         inlined.append(g.name)
         if carry_debug:
             # the callee's source names stay attached to its (renumbered) locals
+            pnums = {'_%d' % p[0] for p in g.params}
             for nm, pl in g.debug_all:
+                if pl.strip() in pnums:
+                    continue          # .. except its parameters: they are the caller's argument expressions and are rendered as such
                 pl2 = _ren_locals(pl, off)
                 root.debug_all.append((nm, pl2))
                 root.debug.setdefault(nm, pl2)
